@@ -1,2 +1,3 @@
 import ScrapliModel.Bytes
+import ScrapliModel.Gen.TelnetConsts
 import ScrapliModel.Telnet
